@@ -498,3 +498,15 @@ pub fn num_from_string_nan() {
     vcover!();
     std::mem::forget(r);
 }
+
+// @h prop=C06 unwind=20 cutfmt=1 timeout=900 mem=12 tier=thorough kind=stretch what=Display_of_both_NaN_encodings(1/0,-1/0)_is_the_fixed_NaN_text
+#[cfg_attr(kani, kani::proof)]
+pub fn nan_display() {
+    let sn = any_bool();
+    let x = Num { up: bn1(sn, 1), down: bn1(true, 0) };
+    let s = format!("{}", x);
+    assert!(s.as_bytes().len() == 16);
+    assert!(s == "너무 커엇...");
+    vcover!();
+    std::mem::forget((x, s));
+}
